@@ -42,6 +42,14 @@ void constSharedSeal();
 void constSharedUnseal();
 void constSharedReset();
 
+// ---- guarded output buffers --------------------------------------------------------------------------------
+// Caller-owned OUTPUT buffers of the calling thread's current operation: the buffer ends (up to 15 bytes of
+// slack, filled with guard bytes by the caller) at a page boundary and the next page is inaccessible, so a
+// library that writes past the documented size faults inside the contained call instead of corrupting the
+// simulator's own heap.  Released together by outReleaseOp().
+void *outAlloc(size_t bytes, size_t *slack);
+void outReleaseOp();
+
 // statistics for the evidence
 int64_t constSealedCalls();
 int64_t constTrappedStores();
